@@ -2116,7 +2116,7 @@ def run(ctx):
                      "applied to two vectors, tensor-network simulator). non-trivial = program with >=2 gates "
                      "sharing a wire or an idle wire, or builder program composing >=2 gates, or history with a mutation after a "
                      "builder call")
-    ctx.lib(["Embed/CircCheck", "Embed/CircProofs", "Embed/HeapProofs", "Embed/CheckProofs", "Embed/HeapObs", "Embed/IdentProofs"])
+    ctx.lib(["Embed/CircCheck", "Embed/CircProofs", "Embed/CircCtrl", "Embed/HeapProofs", "Embed/CheckProofs", "Embed/HeapObs", "Embed/IdentProofs"])
     ok = ctx.translate("GenCirc", gen_embed.generate_circ)
     if ok:
         ctx.props()
